@@ -13,9 +13,10 @@ def contract():
         requires=[H("dispatched-as-internal", "message.command == 3")],
         # the id handed out: whatever key this path registered (independent of the allocation strategy)
         witness={"new_id": (TInt, "the_stored_key(gateway.nodes)")},
-        fresh={"new_node": (TObj("Node"), "gateway.nodes[new_id]"),
-               "new_children": (TDict(TInt, TObj("Child")), "gateway.nodes[new_id].children")},
-        modifies=["gateway.nodes[...]"] + GHOST_LOG,
+        fresh={"new_node": {"type": TObj("Node"), "is": "gateway.nodes[new_id]"},
+               "new_children": {"type": TDict(TInt, TObj("Child")), "is": "gateway.nodes[new_id].children"}},
+        returns="message",
+        modifies=["gateway.nodes[...]"] + GHOST_LOG + ["ghost.wcnt"],
         ensures=[
             P("C11/range", "1 <= new_id and new_id <= 254"),
             P("C11/fresh", "not old(new_id in gateway.nodes)"),
